@@ -151,12 +151,30 @@ DIFFERENT += [
 ]
 
 DIFFERENT += [
+    ("edge added in the stored orientation vs reversed",
+     "def f(G, H):\n    for u, v in G.edges():\n        H.add_edge(u, v)\n    return H\n",
+     "def f(G, H):\n    for u, v in G.edges():\n        H.add_edge(v, u)\n    return H\n"),
     ("swap by tuple assignment vs two assignments one after the other",
      "def f(a, b):\n    a, b = b, a\n    return (a, b)\n",
      "def f(a, b):\n    a = b\n    b = a\n    return (a, b)\n"),
 ]
 
+DIFFERENT += [
+    ("attribute alias used after the attribute was given a new object",
+     "def f(self):\n    a = self.items\n    self.items = []\n    a.append(1)\n    return a\n",
+     "def f(self):\n    self.items = []\n    self.items.append(1)\n    return self.items\n"),
+    ("length read before vs after an unknown method of the object that was handed the list",
+     "def f(Q, g):\n    xs = []\n    Q.add(0, g, args=(xs,))\n    n = len(xs)\n    Q.run()\n    return n\n",
+     "def f(Q, g):\n    xs = []\n    Q.add(0, g, args=(xs,))\n    Q.run()\n    n = len(xs)\n    return n\n"),
+    ("element appended to a list stored in a dict before vs after the dict is copied deeply by an unknown call",
+     "def f(d, k, snap):\n    xs = d[k]\n    xs.append(1)\n    s = snap(d)\n    return s\n",
+     "def f(d, k, snap):\n    xs = d[k]\n    s = snap(d)\n    xs.append(1)\n    return s\n"),
+]
+
 SAME = [
+    ("edge loop with unpacked pair vs starred edge",
+     "def f(G, H, p):\n    for e in G.edges():\n        if random.random() < p:\n            H.add_edge(*e)\n    return H\n",
+     "def f(G, H, p):\n    for u, v in G.edges():\n        if random.random() < p:\n            H.add_edge(u, v)\n    return H\n"),
     ("tuple assignment whose values only read their own target",
      "def f(t, s, n):\n    t = t[n:]\n    s = s[n:]\n    return (t, s)\n",
      "def f(t, s, n):\n    t, s = t[n:], s[n:]\n    return (t, s)\n"),
